@@ -12,7 +12,7 @@ def parseNote (s : String) : Option Note :=
       match (String.ofList rest).splitOn "." with
       | [d, v, k] =>
         (match d.toNat?, v.toNat? with
-        | some u, some ver => some ⟨u, .update ver (k != "b")⟩
+        | some u, some ver => some ⟨u, .update ver (k != "b" && k != "l")⟩   -- b: parse error, l: lexer error
         | _, _ => none)
       | _ => none
     else none
